@@ -30,6 +30,7 @@ func checkC02(c *chk.Ctx) {
 		"R02a every public data-path method of the leader controller checks status==LEADER under the controller lock before any DB access can start",
 		"R02b the read entry points never reach the WAL (reads are served from the DB, which holds committed state only)",
 		"R02c every DB apply site is behind a commit guard (shared with C01)",
+		"R02d the version counter persisted with a request is read after the request was applied (a restarted node must not re-issue version ids: conditional writes compare them)",
 	}
 	c.NotDec = []string{
 		"linearizability of complete histories (needs a history checker)",
@@ -39,6 +40,7 @@ func checkC02(c *chk.Ctx) {
 	ruleR02a(h)
 	ruleR02b(h)
 	ruleR01d(h, "R02c")
+	ruleR06dInto(h, "R02d", false)
 }
 
 // coordination entry points of the leader controller: they touch the DB by design and
